@@ -42,10 +42,43 @@ def effective_key(ident, rename, rename_all):
 def load_catalogue():
     return json.load(open(os.path.join(VERIF, "catalogue", "structs.json")))
 
+def uses_fns(s):
+    return bool(s.get("deny_fn") or s.get("validate") or any(f.get(k) for f in s["fields"] for k in ("try_from", "from", "map", "missing_fn")))
+
+def fn_names(s):
+    """names of the stand-in user functions of a struct with function attributes"""
+    P = s["name"].lower()
+    return {"try": f"{P}_conv_try", "from": f"{P}_conv_from", "deny": f"{P}_deny", "validate": f"{P}_validate", "map": lambda f: f"{P}_map_{f['ident']}", "miss": lambda f: f"{P}_miss_{f['ident']}"}
+
+def rust_fns(s):
+    """Rust definitions of the stand-in user functions (for the expansion crate only: bodies are never verified or run)"""
+    if not uses_fns(s): return ""
+    n = fn_names(s); out = []
+    for f in s["fields"]:
+        if f.get("try_from"): out.append(f"pub fn {n['try']}(_s: Src) -> Result<Tgt, Ferr> {{ unimplemented!() }}")
+        if f.get("from"): out.append(f"pub fn {n['from']}(_s: Src) -> Tgt {{ unimplemented!() }}")
+        if f.get("map"): out.append(f"pub fn {n['map'](f)}<T>(x: T) -> T {{ x }}")
+        if f.get("missing_fn"): out.append(f"pub fn {n['miss'](f)}(_field: &str, _loc: deserr::ValuePointerRef) -> Ferr {{ unimplemented!() }}")
+    if s.get("validate"): out.append(f"pub fn {n['validate']}(v: {s['name']}, _loc: deserr::ValuePointerRef) -> Result<{s['name']}, Ferr> {{ Ok(v) }}")
+    if s.get("deny_fn"): out.append(f"pub fn {n['deny']}(_key: &str, _accepted: &[&str], _loc: deserr::ValuePointerRef) -> Ferr {{ unimplemented!() }}")
+    return "\n".join(out) + "\n"
+
+RUST_FN_PRELUDE = """pub struct Src(pub u64);
+pub struct Tgt(pub u64);
+pub struct Ferr(pub u64);
+impl<E: deserr::DeserializeError> deserr::Deserr<E> for Src {
+    fn deserialize_from_value<V: deserr::IntoValue>(_value: deserr::Value<V>, _location: deserr::ValuePointerRef) -> Result<Self, E> { unimplemented!() }
+}
+"""
+
 def rust_item(s):
     cattrs = []
     if s.get("rename_all"): cattrs.append(f"rename_all = {s['rename_all']}")
     if s.get("deny"): cattrs.append("deny_unknown_fields")
+    n = fn_names(s)
+    if s.get("deny_fn"): cattrs.append(f"deny_unknown_fields = {n['deny']}")
+    if s.get("validate"): cattrs.append(f"validate = {n['validate']} -> Ferr")
+    if uses_fns(s): cattrs.append("where_predicate = __Deserr_E: ::deserr::MergeWithError<Ferr>")
     tps = []
     lines = []
     for f in s["fields"]:
@@ -55,6 +88,10 @@ def rust_item(s):
         if f.get("rename") is not None: fattrs.append(f'rename = "{f["rename"]}"')
         if f.get("default"): fattrs.append("default")
         if f.get("skip"): fattrs.append("skip")
+        if f.get("try_from"): fattrs.append(f"try_from(Src) = {n['try']} -> Ferr")
+        if f.get("from"): fattrs.append(f"from(Src) = {n['from']}")
+        if f.get("map"): fattrs.append(f"map = {n['map'](f)}")
+        if f.get("missing_fn"): fattrs.append(f"missing_field_error = {n['miss'](f)}")
         lines.append(("    #[deserr(" + ", ".join(fattrs) + ")]\n" if fattrs else "") + f"    pub {f['ident']}: {f['ty']},")
     head = "#[derive(Deserr)]\n" + (f"#[deserr({', '.join(cattrs)})]\n" if cattrs else "") + "#[allow(non_snake_case)]\n"
     return head + f"pub struct {s['name']}<{', '.join(tps)}> {{\n" + "\n".join(lines) + "\n}\n", tps
@@ -67,7 +104,7 @@ def expand(repo, cat):
     open(os.path.join(d, "crate", "Cargo.toml"), "w").write(f'[package]\nname = "deserr-verif-expand"\nversion = "0.1.0"\nedition = "2021"\n[dependencies]\ndeserr = {{ path = "{repo}" }}\n[workspace]\n')
     lock = os.path.join(repo, "Cargo.lock")
     if os.path.exists(lock): shutil.copy(lock, os.path.join(d, "crate", "Cargo.lock"))
-    src = "#![allow(dead_code)]\nuse deserr::Deserr;\n" + "\n".join(rust_item(s)[0] for s in cat["structs"]) + "\n" + "\n".join(variant_item(e) for e in cat.get("unit_enums", [])) + "\n" + "\n".join(tagged_item(e)[0] for e in cat.get("tagged_enums", []))
+    src = "#![allow(dead_code)]\nuse deserr::Deserr;\n" + RUST_FN_PRELUDE + "".join(rust_fns(s) for s in cat["structs"]) + "\n".join(rust_item(s)[0] for s in cat["structs"]) + "\n" + "\n".join(variant_item(e) for e in cat.get("unit_enums", [])) + "\n" + "\n".join(tagged_item(e)[0] for e in cat.get("tagged_enums", []))
     open(os.path.join(d, "crate", "src", "lib.rs"), "w").write(src)
     e = dict(os.environ); e["CARGO_NET_OFFLINE"] = "true"; e["CARGO_TARGET_DIR"] = os.path.join(BUILD, f"derive-target-{h}")
     e.pop("RUSTUP_TOOLCHAIN", None)
@@ -144,7 +181,7 @@ def type_params(fields):
             if t not in tps: tps.append(t)
     return tps
 
-def gen_fields(P, tps, fields, rename_all, deny, loop_no, ctx_inv, ctx_ghost, full_expr_is_whole=True):
+def gen_fields(P, tps, fields, rename_all, deny, loop_no, ctx_inv, ctx_ghost, full_expr_is_whole=True, fnames=None, deny_fn=False, with_fns=False):
     """specs + annotations for one set of named fields (a struct, or a struct-like enum variant).
     P: prefix of the generated spec fns; tps: type parameters of the *container*; loop_no: ordinal of the key loop;
     ctx_inv: invariant lines tying `es` (the entries iterated) and `value0` to the function's parameter;
@@ -160,18 +197,25 @@ def gen_fields(P, tps, fields, rename_all, deny, loop_no, ctx_inv, ctx_ghost, fu
     raw.append(f"pub open spec fn {P}_unknown_report(p: Seq<Step>, k: Seq<char>) -> Ev {{ Ev::Report {{ path: p, kind: RKind::UnknownKey {{ key: k, accepted: {P}_accepted() }} }} }}\n")
     ok_arms = []; part_arms = []
     for i, f in enumerate(ns):
-        T = f["ty"]
-        ok_arms.append(f"if f == {i} {{ <{T} as Deserr<E>>::accepts(v) }}")
-        part_arms.append(f"if f == {i} {{ if <{T} as Deserr<E>>::accepts(v) {{ Seq::empty() }} else {{ <{T} as Deserr<E>>::spec_trace(v, pk).push(Ev::Handover {{ path: pk }}) }} }}")
-    ok_tail = "false" if deny else "true"
-    part_tail = f"seq![{P}_unknown_report(p, kv.0@)]" if deny else "Seq::empty()"
+        T = "Src" if (f.get("try_from") or f.get("from")) else f["ty"]
+        if f.get("try_from"):
+            # the conversion runs on the deserialized intermediate value; its failure is handed to the field's error type (here: the
+            # container's) and from there to the container's accumulator, both at the field's location
+            ok_arms.append(f"if f == {i} {{ <{T} as Deserr<E>>::accepts(v) && {fnames['try']}_ok(src_val(v)) }}")
+            part_arms.append(f"if f == {i} {{ if !<{T} as Deserr<E>>::accepts(v) {{ <{T} as Deserr<E>>::spec_trace(v, pk).push(Ev::Handover {{ path: pk }}) }} else if {fnames['try']}_ok(src_val(v)) {{ Seq::empty() }} else {{ seq![Ev::Handover {{ path: pk }}, Ev::Handover {{ path: pk }}] }} }}")
+        else:
+            ok_arms.append(f"if f == {i} {{ <{T} as Deserr<E>>::accepts(v) }}")
+            part_arms.append(f"if f == {i} {{ if <{T} as Deserr<E>>::accepts(v) {{ Seq::empty() }} else {{ <{T} as Deserr<E>>::spec_trace(v, pk).push(Ev::Handover {{ path: pk }}) }} }}")
+    ok_tail = "false" if (deny or deny_fn) else "true"
+    part_tail = (f"seq![{P}_unknown_report(p, kv.0@)]" if deny else "seq![Ev::Handover { path: p }]" if deny_fn else "Seq::empty()")
     raw.append(f"pub open spec fn {P}_entry_ok<{TPB}{', ' if TPB else ''}E: DeserializeError, V: IntoValue>(kv: (String, V)) -> bool {{\n    let f = {P}_field_of(kv.0@); let v = kv.1.spec_into_value();\n    " +
                " else ".join(ok_arms) + (" else { " if ok_arms else "{ ") + ok_tail + " }\n}\n")
     raw.append(f"pub open spec fn {P}_entry_part<{TPB}{', ' if TPB else ''}E: DeserializeError, V: IntoValue>(kv: (String, V), p: Seq<Step>) -> Seq<Ev> {{\n    let f = {P}_field_of(kv.0@); let v = kv.1.spec_into_value(); let pk = p.push(Step::Key(kv.0@));\n    " +
                " else ".join(part_arms) + (" else { " if part_arms else "{ ") + part_tail + " }\n}\n")
     raw.append(LEMMAS.replace("@P@", P).replace("@TPB@, ", TPB + ", " if TPB else "").replace("@TP@, ", TP + ", " if TP else ""))
     req = [(i, f, keys[i]) for i, f in enumerate(ns) if not f.get("default")]
-    pieces = [f"(if upto > {i} && {P}_last(es, es.len() as int, {i}) < 0 {{ seq![miss_report(p, {lit(k)})] }} else {{ Seq::<Ev>::empty() }})" for i, f, k in req]
+    def miss_ev(f, k): return "Ev::Handover { path: p }" if f.get("missing_fn") else f"miss_report(p, {lit(k)})"
+    pieces = [f"(if upto > {i} && {P}_last(es, es.len() as int, {i}) < 0 {{ seq![{miss_ev(f, k)}] }} else {{ Seq::<Ev>::empty() }})" for i, f, k in req]
     raw.append(f"pub open spec fn {P}_missing<V>(es: Seq<(String, V)>, p: Seq<Step>, upto: int) -> Seq<Ev> {{\n    " + (" + ".join(pieces) if pieces else "Seq::<Ev>::empty()") + "\n}\n")
     nF = len(ns)
     TPX = (TP + ", ") if TP else ""
@@ -182,7 +226,12 @@ def gen_fields(P, tps, fields, rename_all, deny, loop_no, ctx_inv, ctx_ghost, fu
             inv.append(f"                        !({v} is Missing), deserr_error__ is None ==> {v} is Some,   // [C08:{P}_{v}_default_never_missing]")
         else:
             inv.append(f"                        ({v} is Missing) <==> {P}_last(es, gi, {i}) < 0,   // [C07,C08:{P}_{v}_missing_iff_key_absent]")
-        inv.append(f"                        deserr_error__ is None && {P}_last(es, gi, {i}) >= 0 ==> fs_repr::<{f['ty']}, __Deserr_E, V>({v}, es[{P}_last(es, gi, {i})].1.spec_into_value()),   // [C07:{P}_{v}_filled_from_its_effective_key]")
+        if f.get("try_from"):
+            inv.append(f"                        deserr_error__ is None && {P}_last(es, gi, {i}) >= 0 ==> {v} is Some && {v}->Some_0 == {fnames['try']}_val(src_val(es[{P}_last(es, gi, {i})].1.spec_into_value())),   // [C07,C11:{P}_{v}_is_the_conversion_of_the_value_under_its_effective_key]")
+        elif f.get("from"):
+            inv.append(f"                        deserr_error__ is None && {P}_last(es, gi, {i}) >= 0 ==> {v} is Some && {v}->Some_0 == {fnames['from']}_val(src_val(es[{P}_last(es, gi, {i})].1.spec_into_value())),   // [C07,C11:{P}_{v}_is_the_conversion_of_the_value_under_its_effective_key]")
+        else:
+            inv.append(f"                        deserr_error__ is None && {P}_last(es, gi, {i}) >= 0 ==> fs_repr::<{f['ty']}, __Deserr_E, V>({v}, es[{P}_last(es, gi, {i})].1.spec_into_value()),   // [C07:{P}_{v}_filled_from_its_effective_key]")
     for f in fields:
         if f.get("skip"):
             inv.append(f"                        {f['ident']} is Some,   // [C08:{P}_{f['ident']}_skipped_keeps_its_default]")
@@ -196,7 +245,7 @@ def gen_fields(P, tps, fields, rename_all, deny, loop_no, ctx_inv, ctx_ghost, fu
                         tail == {P}_missing(es, p, {nF}),
                         full == {P}_trace_upto::<{TPX}__Deserr_E, V>(es, p, es.len() as int) + tail,
                         0 <= gi <= es.len(),
-                        acc_ok(otrace(deserr_error__), ostops(deserr_error__), full, {P}_trace_upto::<{TPX}__Deserr_E, V>(es, p, gi).len() as int, p),   // [C02,C03,C04,C09:{P}_acc]
+                        acc_ok(otrace(deserr_error__), ostops(deserr_error__), full, {P}_trace_upto::<{TPX}__Deserr_E, V>(es, p, gi).len() as int, p),   // [C02,C03,C04,C09{',C11' if with_fns else ''}:{P}_acc]
                         deserr_error__ is Some ==> otrace(deserr_error__).len() >= 1,   // [C01:{P}_acc_nonempty]
                         (deserr_error__ is None) <==> {P}_entries_ok::<{TPX}__Deserr_E, V>(es, gi),   // [C01,C02,C09:{P}_acc_none_iff_entries_ok]
 ''' + "\n".join(inv) + f'''
@@ -226,8 +275,8 @@ def gen_fields(P, tps, fields, rename_all, deny, loop_no, ctx_inv, ctx_ghost, fu
     steps.append(f"                    let b = body.len() as int;\n                    assert(full == body + {P}_missing(es, p, {nF}));\n                    assert({P}_missing(es, p, 0) =~= Seq::<Ev>::empty());")
     for n_, (i, f, k) in enumerate(req):
         nxt = req[n_ + 1][0] if n_ + 1 < len(req) else nF
-        steps.append(f"                    assert({P}_missing(es, p, {nxt}) =~= {P}_missing(es, p, {i}) + (if {P}_last(es, es.len() as int, {i}) < 0 {{ seq![miss_report(p, {lit(k)})] }} else {{ Seq::<Ev>::empty() }}));")
-        steps.append(f"                    assert({P}_last(es, es.len() as int, {i}) < 0 ==> tail[{P}_missing(es, p, {i}).len() as int] == miss_report(p, {lit(k)}) && full[b + {P}_missing(es, p, {i}).len()] == miss_report(p, {lit(k)}));")
+        steps.append(f"                    assert({P}_missing(es, p, {nxt}) =~= {P}_missing(es, p, {i}) + (if {P}_last(es, es.len() as int, {i}) < 0 {{ seq![{miss_ev(f, k)}] }} else {{ Seq::<Ev>::empty() }}));")
+        steps.append(f"                    assert({P}_last(es, es.len() as int, {i}) < 0 ==> tail[{P}_missing(es, p, {i}).len() as int] == {miss_ev(f, k)} && full[b + {P}_missing(es, p, {i}).len()] == {miss_ev(f, k)});")
     if req:
         steps.append(f"                    assert({P}_missing(es, p, {req[0][0]}) =~= Seq::<Ev>::empty());")
     after_loop = "                proof {\n" + "\n".join(steps) + "\n                }\n"
@@ -236,8 +285,33 @@ def gen_fields(P, tps, fields, rename_all, deny, loop_no, ctx_inv, ctx_ghost, fu
         let ghost full = body + tail;
         let ghost mut gi: int = 0;
 '''
-    dirs = [f"@@loop {loop_no}\n" + loop_inv, f"@@loop-head {loop_no}\n                    broadcast use group_derive;\n                    let ghost it0 = {it};\n",
+    dirs = [f"@@loop {loop_no}\n" + loop_inv, f"@@loop-head {loop_no}\n                    broadcast use group_derive;\n" + ("                    broadcast use group_fns;\n" if with_fns else "") + (f"                    broadcast use lemma_strs_view{len(keys)};\n" if deny_fn and 1 <= len(keys) <= 6 else "") + f"                    let ghost it0 = {it};\n",
             f"@@loop-start {loop_no}\n" + loop_start, f"@@after-loop {loop_no}\n" + after_loop]
+    for f in ns:
+        if f.get("try_from"):
+            common = f"""let pk_ = p.push(Step::Key(deserr_key__@));
+                                                            let h_ = Ev::Handover {{ path: pk_ }};
+                                                            let d_ = {P}_trace_upto::<{TPX}__Deserr_E, V>(es, p, gi0).len() as int;
+                                                            assert(p.is_prefix_of(pk_));
+                                                            assert({P}_entry_part::<{TPX}__Deserr_E, V>(es[gi0], p) =~= seq![h_].push(h_));
+                                                            lemma_{P}_trace_part::<{TPX}__Deserr_E, V>(es, p, gi0, es.len() as int, tail);
+                                                            assert(d_ + 2 <= full.len() && full.subrange(d_, d_ + 2) == seq![h_].push(h_));"""
+            dirs.append(f"""@@at after "let tmp_deserr_error__ ="
+                                                        proof {{
+                                                            {common}
+                                                            lemma_foreign_first(pk_, false);
+                                                            assert(post_err(trace(tmp_deserr_error__), stops(tmp_deserr_error__), seq![h_], pk_));
+                                                        }}
+""")
+            dirs.append(f"""@@at before "return ::std::result::Result::Err(::deserr::take_cf_content("
+                                                                    proof {{
+                                                                        {common}
+                                                                        lemma_foreign_first(pk_, true);
+                                                                        assert(post_err(trace(e), stops(e), seq![h_], pk_));
+                                                                        assert(stops(e)[0]);
+                                                                        assert(!nostop(stops(e)));
+                                                                    }}
+""")
     order = [f["ident"] for f in ns]
     return {"raw": "".join(raw), "dirs": dirs, "ghost": ghost, "keys": keys, "ns": ns, "req": req, "nF": nF, "TP": TP, "TPX": TPX, "order": order}
 
@@ -252,12 +326,82 @@ def gen_struct(s, expanded_path):
         let ghost es = value0->Map_0.entries();
         let ghost p = deserr_location__.path();
 '''
-    g = gen_fields(P, tps, s["fields"], s.get("rename_all"), deny, 1, ctx_inv, ctx_ghost)
+    fn = fn_names(s)
+    g = gen_fields(P, tps, s["fields"], s.get("rename_all"), deny, 1, ctx_inv, ctx_ghost, fnames=fn, deny_fn=bool(s.get("deny_fn")), with_fns=uses_fns(s))
     keys, ns, req, nF, TPX = g["keys"], g["ns"], g["req"], g["nF"], g["TPX"]
     raw = [f"// ==== derived struct {name}: effective keys {keys} (computed from the description by tools/derive_unit.py), deny_unknown_fields = {deny}\n",
            f"pub struct {name}<{TP}> {{ " + " ".join(f"pub {f['ident']}: {f['ty']}," for f in s["fields"]) + " }\n", g["raw"]]
     req_present = "".join(f" && {P}_last(es, es.len() as int, {i}) >= 0" for i, f, k in req)
-    repr_clauses = "".join(f" && ({P}_last(es, es.len() as int, {i}) >= 0 ==> self.{f['ident']}.represents(es[{P}_last(es, es.len() as int, {i})].1.spec_into_value()))" for i, f in enumerate(ns))
+    def repr_clause(i, f):
+        last = f"{P}_last(es, es.len() as int, {i})"; v = f"es[{last}].1.spec_into_value()"
+        if f.get("try_from"): return f" && ({last} >= 0 ==> self.{f['ident']} == {fn['try']}_val(src_val({v})))"
+        if f.get("from"): return f" && ({last} >= 0 ==> self.{f['ident']} == {fn['from']}_val(src_val({v})))"
+        if f.get("map"): return f" && ({last} >= 0 ==> mapped_repr::<{f['ty']}, __Deserr_E, V>(self.{f['ident']}, {v}, |c_: {f['ty']}| {fn['map'](f)}_val::<{f['ty']}>(c_)))"
+        return f" && ({last} >= 0 ==> self.{f['ident']}.represents({v}))"
+    repr_clauses = "".join(repr_clause(i, f) for i, f in enumerate(ns))
+    # contracts of the stand-in user functions (assumed: they are the user's code; what is *checked* is every call site's precondition)
+    fdecl = []
+    lit = lambda k: '"' + k + '"@'
+    for i, f in enumerate(ns):
+        if f.get("try_from"):
+            fdecl.append(f"""pub uninterp spec fn {fn['try']}_ok(s: Src) -> bool;
+pub uninterp spec fn {fn['try']}_val(s: Src) -> Tgt;
+// ASSUME:user-fn a pure function of its argument; it may only be handed a value that was successfully deserialized (checked at the call site)
+#[verifier::external_body]
+pub fn {fn['try']}(s: Src) -> (r: Result<Tgt, Ferr>)
+    requires deserialized(s),   // [C11:{P}_conversion_function_only_receives_a_deserialized_value]
+    ensures (r is Ok) == {fn['try']}_ok(s), r is Ok ==> r->Ok_0 == {fn['try']}_val(s),
+{{ unimplemented!() }}
+""")
+        if f.get("from"):
+            fdecl.append(f"""pub uninterp spec fn {fn['from']}_val(s: Src) -> Tgt;
+// ASSUME:user-fn a pure function of its argument; it may only be handed a value that was successfully deserialized (checked at the call site)
+#[verifier::external_body]
+pub fn {fn['from']}(s: Src) -> (r: Tgt)
+    requires deserialized(s),   // [C11:{P}_conversion_function_only_receives_a_deserialized_value]
+    ensures r == {fn['from']}_val(s),
+{{ unimplemented!() }}
+""")
+        if f.get("map"):
+            fdecl.append(f"""pub uninterp spec fn {fn['map'](f)}_val<T>(x: T) -> T;
+// ASSUME:user-fn a pure function of its argument
+#[verifier::external_body]
+pub fn {fn['map'](f)}<T>(x: T) -> (r: T)
+    ensures r == {fn['map'](f)}_val(x),
+{{ unimplemented!() }}
+""")
+        if f.get("missing_fn"):
+            fdecl.append(f"""// ASSUME:user-fn returns its own error value; it must be given the field's effective key (checked at the call site)
+#[verifier::external_body]
+pub fn {fn['miss'](f)}(field: &str, loc: ValuePointerRef) -> (r: Ferr)
+    requires field@ == {lit(keys[i])},   // [C07,C08:{P}_missing_field_function_receives_the_effective_key]
+{{ unimplemented!() }}
+""")
+    if s.get("deny_fn"):
+        fdecl.append(f"""// ASSUME:user-fn returns its own error value; it must be given the exact accepted list (checked at the call site)
+#[verifier::external_body]
+pub fn {fn['deny']}(key: &str, accepted: &[&str], loc: ValuePointerRef) -> (r: Ferr)
+    requires strs_view(accepted@) == {P}_accepted(), {P}_field_of(key@) < 0,   // [C07,C09:{P}_unknown_key_function_receives_the_key_and_the_exact_accepted_list]
+{{ unimplemented!() }}
+""")
+    if s.get("validate"):
+        if tps or any(f.get("default") or f.get("skip") or f.get("map") for f in s["fields"]):
+            raise RuntimeError("catalogue: `validate` is supported for structs whose fields are all required and deterministic (Src / from / try_from)")
+        def val_expr(i, f):
+            v = f"src_val(es[{P}_last(es, es.len() as int, {i})].1.spec_into_value())"
+            return f"{fn['try']}_val({v})" if f.get("try_from") else f"{fn['from']}_val({v})" if f.get("from") else v
+        fdecl.append(f"""pub uninterp spec fn {fn['validate']}_ok(s: {name}) -> bool;
+pub uninterp spec fn {fn['validate']}_val(s: {name}) -> {name};
+// ASSUME:user-fn a pure function of the value it is given
+#[verifier::external_body]
+pub fn {fn['validate']}(s: {name}, loc: ValuePointerRef) -> (r: Result<{name}, Ferr>)
+    ensures (r is Ok) == {fn['validate']}_ok(s), r is Ok ==> r->Ok_0 == {fn['validate']}_val(s),
+{{ unimplemented!() }}
+/// the value built from the entries when every field is fine
+pub open spec fn {P}_value<V: IntoValue>(es: Seq<(String, V)>) -> {name} {{ {name} {{ {", ".join(f"{f['ident']}: {val_expr(i, f)}" for i, f in enumerate(ns))} }} }}
+pub open spec fn {P}_fields_accept<V: IntoValue, E: DeserializeError>(es: Seq<(String, V)>) -> bool {{ {P}_entries_ok::<{TPX}E, V>(es, es.len() as int){req_present} }}
+""")
+    raw.append("".join(fdecl))
     members = f'''    /// no fault: every entry is fine (an unknown key is a fault exactly under deny_unknown_fields) and every required field is present
     open spec fn accepts<V: IntoValue>(value: Value<V>) -> bool {{
         value is Map && ({{ let es = value->Map_0.entries(); {P}_entries_ok::<{TPX}__Deserr_E, V>(es, es.len() as int){req_present} }})
@@ -272,13 +416,39 @@ def gen_struct(s, expanded_path):
         value is Map && ({{ let es = value->Map_0.entries(); true{repr_clauses} }})
     }}
 '''
-    dirs = ["@@rewrite strmatch\n", "@@body-start\n        broadcast use group_derive;\n" + g["ghost"]] + g["dirs"]
+    if s.get("validate"):
+        members = f'''    /// no fault in the fields, and the validation function accepts the value built from them
+    open spec fn accepts<V: IntoValue>(value: Value<V>) -> bool {{
+        value is Map && ({{ let es = value->Map_0.entries(); {P}_fields_accept::<V, __Deserr_E>(es) && {fn['validate']}_ok({P}_value(es)) }})
+    }}
+    /// keep-going run of the fields; when they are all fine and validation fails: its error handed over at the container's location
+    open spec fn spec_trace<V: IntoValue>(value: Value<V>, p: Seq<Step>) -> Seq<Ev> {{
+        if value is Map {{
+            let es = value->Map_0.entries();
+            if {P}_fields_accept::<V, __Deserr_E>(es) && !{fn['validate']}_ok({P}_value(es)) {{ seq![Ev::Handover {{ path: p }}] }}
+            else {{ {P}_trace_upto::<{TPX}__Deserr_E, V>(es, p, es.len() as int) + {P}_missing(es, p, {nF}) }}
+        }} else {{ seq![kind_report(value, p, seq![ValueKind::Map])] }}
+    }}
+    /// the result is what the validation function returns for the value built from the entries
+    open spec fn represents<V: IntoValue>(self, value: Value<V>) -> bool {{
+        value is Map && ({{ let es = value->Map_0.entries(); self == {fn['validate']}_val({P}_value(es)) }})
+    }}
+'''
+    dirs = ["@@attr\n    #[verifier::rlimit(40)]\n", "@@rewrite strmatch\n"] + (["@@rewrite map_err\n"] if s.get("validate") else []) + ["@@body-start\n        broadcast use group_derive;\n" + ("        broadcast use group_fns;\n" if uses_fns(s) else "") + g["ghost"]] + g["dirs"]
+    if s.get("validate"):
+        dirs.append(f'''@@at after "let deserr_final__ ="
+        proof {{
+            assert(value0 is Map ==> {P}_fields_accept::<V, __Deserr_E>(es) && deserr_final__ == {P}_value(es));   // [C07,C11:{P}_validation_receives_the_value_built_from_the_fields]
+            lemma_foreign_first(p, true); lemma_foreign_first(p, false);
+        }}
+''')
     order = g["order"]
     for idx in range(len(order)):
         nxt = f"if {order[idx + 1]}.is_missing()" if idx + 1 < len(order) else "if let Some(deserr_error__) = deserr_error__"
         upto = idx + 1
-        dirs.append(f'@@at? before "{nxt}"\n                proof {{ assert(acc_ok(otrace(deserr_error__), ostops(deserr_error__), full, body.len() as int + {P}_missing(es, p, {upto}).len() as int, p)); assert(deserr_error__ is None ==> {P}_missing(es, p, {upto}).len() == 0); }}\n')
-    take = f"@@take {expanded_path} :: Deserr<__Deserr_E> for {name}<\n@@subst \"::deserr::\" -> \"\"\n@@members\n{members}@@fn deserialize_from_value\n" + "".join(dirs)
+        dirs.append(f'@@at? before "{nxt}"\n                proof {{ assert(acc_ok(otrace(deserr_error__), ostops(deserr_error__), full, body.len() as int + {P}_missing(es, p, {upto}).len() as int, p)); assert(deserr_error__ is None ==> {P}_missing(es, p, {upto}).len() == 0); }}   // [C02,C03,C08:{P}_acc_after_missing_check_{upto}]\n')
+    sel = f"for {name}<" if tps else f"for {name} where"
+    take = f"@@take {expanded_path} :: Deserr<__Deserr_E> {sel}\n@@subst \"::deserr::\" -> \"\"\n@@members\n{members}@@fn deserialize_from_value\n" + "".join(dirs)
     return "".join(raw), take
 
 def variant_item(e):
@@ -369,7 +539,7 @@ def gen_tagged_enum(e, expanded_path):
         let ghost tagv = es0[ti].1.spec_into_value();
         proof {{ lemma_first_key_index_bounds(es0, {K}); lemma_prefix_push(p, Step::Key({K})); }}
 '''
-    dirs = ["@@rewrite strmatch\n", "@@rewrite ok_or_else\n"]
+    dirs = ["@@attr\n    #[verifier::rlimit(40)]\n", "@@rewrite strmatch\n", "@@rewrite ok_or_else\n"]
     ghosts = [ctx_ghost]
     acc_arms, trace_arms, repr_arms = [], [], []
     loop_no = 0
@@ -440,6 +610,19 @@ def gen_tagged_enum(e, expanded_path):
     take = f"@@take {expanded_path} :: Deserr<__Deserr_E> for {name}<\n@@subst \"::deserr::\" -> \"\"\n@@members\n{members}@@fn deserialize_from_value\n" + "".join(dirs)
     return "".join(raw), take
 
+SRC_IMPL = """// ---- the intermediate type of the conversion attributes: a child known only through the Deserr contract, with a functional `represents`
+impl<E: DeserializeError> Deserr<E> for Src {
+    open spec fn accepts<V: IntoValue>(value: Value<V>) -> bool { src_accepts(value) }
+    open spec fn spec_trace<V: IntoValue>(value: Value<V>, p: Seq<Step>) -> Seq<Ev> { src_trace(value, p) }
+    /// functional, and it carries the ghost marker "came out of a successful deserialization"
+    open spec fn represents<V: IntoValue>(self, value: Value<V>) -> bool { self == src_val(value) && deserialized(self) }
+    // ASSUME:child the child's contract (the ensures of the trait)
+    #[verifier::external_body]
+    fn deserialize_from_value<V: IntoValue>(value: Value<V>, location: ValuePointerRef) -> Result<Self, E>
+    { unimplemented!() }
+}
+"""
+
 HEADER_SPEC = os.path.join(VERIF, "contracts", "derive_header.vspec.in")
 
 def prepare(repo):
@@ -456,6 +639,7 @@ def prepare(repo):
     for e in cat.get("tagged_enums", []):
         r, t = gen_tagged_enum(e, expanded)
         raws.append(r); takes.append(t)
+    raws.insert(0, SRC_IMPL)
     spec = header.replace("@@STRUCT-PRELUDES@@", "@@raw\n" + "\n".join(raws)).replace("@@STRUCT-TAKES@@", "\n".join(takes))
     out = os.path.join(d, "derive.vspec")
     open(out, "w").write(spec)
